@@ -589,6 +589,11 @@ def gather(ctx):
         y, meta = specgen_metrics.gen(rng)
         pops.append({"yaml": y, "kind": "generated-metrics", "arch": True, "syms": {}, "meta": meta})
     pops += list(popgen.compute_only(rng, 4 if q else 16))
+    # metrics mode with non-empty loop headers / footers (eager buffets, evict-on ranks, several buffer levels)
+    import specgen_c12
+    for _ in range(24 if q else 100):
+        y, meta = specgen_c12.gen(rng)
+        pops.append({"yaml": y, "kind": "generated-c12", "arch": True, "syms": {}, "meta": meta})
     return pops
 
 
